@@ -129,6 +129,12 @@ func c18Setup(cfg c18Config) (*c18Files, error) {
 	case "w-txtar":
 		err = write("a.txtar", "comment\n-- one.evy --\n"+content+"-- note.txt --\nx:=1 stays\n-- two.evy --\ny:=2\nprint y\n")
 		f.args = []string{"fmt", "-w", "a.txtar"}
+	case "w-txtar-lastok", "c-txtar-lastok": // the member under test comes first, the last member is already formatted
+		err = write("a.txtar", "comment\n-- one.evy --\n"+content+"-- note.txt --\nx:=1 stays\n-- two.evy --\ny := 2\nprint y\n")
+		f.args = []string{"fmt", "-w", "a.txtar"}
+		if cfg.Mode == "c-txtar-lastok" {
+			f.args = []string{"fmt", "-c", "a.txtar"}
+		}
 	case "w-two":
 		if err = write("a.evy", content); err == nil {
 			err = write("b.evy", c18Content("unparsable"))
@@ -380,7 +386,7 @@ func c18Oracle(c c18Case, f *c18Files, res *straceResult, viol func(sig, what, e
 	input := c18Content(cfg.Input)
 	want, parses := formatted(input)
 	switch cfg.Mode {
-	case "c", "c-stdin", "c-two":
+	case "c", "c-stdin", "c-two", "c-txtar-lastok":
 		if c.Fault == "" {
 			wantExit := 1
 			if parses && want == input {
@@ -395,7 +401,7 @@ func c18Oracle(c c18Case, f *c18Files, res *straceResult, viol func(sig, what, e
 		} else if res.exit == 0 && !(parses && want == input) {
 			return viol("check-exit-status-under-fault", "evy fmt -c reported success for input that is not formatted", "non-zero", "0")
 		}
-	case "w", "w-txtar", "w-two":
+	case "w", "w-txtar", "w-two", "w-txtar-lastok":
 		anyUnparsable := !parses || cfg.Mode == "w-two"
 		if c.Fault == "" {
 			if anyUnparsable && res.exit == 0 {
@@ -448,13 +454,16 @@ func runC18(w *fw.Worker) {
 	}
 	var cfgs []c18Config
 	for _, in := range []string{"unformatted", "formatted", "unparsable", "empty", "large"} {
-		for _, mode := range []string{"w", "w-txtar", "w-two", "c", "c-two", "c-stdin", "none"} {
+		for _, mode := range []string{"w", "w-txtar", "w-txtar-lastok", "w-two", "c", "c-two", "c-txtar-lastok", "c-stdin", "none"} {
 			for pi, perm := range perms {
 				if pi > 0 && (mode != "w" && mode != "w-txtar" || w.Quick() && in != "unformatted") {
 					continue // permission variants matter where a file is replaced
 				}
 				if in == "large" && mode != "w" && mode != "c" {
 					continue
+				}
+				if w.Quick() && strings.HasSuffix(mode, "-lastok") && in != "unformatted" && in != "formatted" {
+					continue // quick tier: the archive variants for the two inputs that decide the verdict
 				}
 				cfgs = append(cfgs, c18Config{in, mode, perm})
 			}
